@@ -41,6 +41,10 @@ func (gen *generator) createTypeDefs() error {
 	gen.new.typeDefs = make(map[string]types.Type)
 	for typeName, old := range gen.old.typeDefs {
 		verifhook.Visit("createTypeDefs", typeName)
+		if _, ok := old.Typ().(*ast.NamedType); ok {
+			// type alias; resolved below.
+			continue
+		}
 		// track is used to identify self-referential named types.
 		track := make(map[string]bool)
 		t, err := newType(typeName, old.Typ(), gen.old.typeDefs, track)
@@ -49,7 +53,48 @@ func (gen *generator) createTypeDefs() error {
 		}
 		gen.new.typeDefs[typeName] = t
 	}
+	// Resolve type aliases (e.g. `%a = type %b`) to the type definition they
+	// denote, so that both type identifiers refer to the same IR type.
+	for typeName, old := range gen.old.typeDefs {
+		if _, ok := old.Typ().(*ast.NamedType); !ok {
+			continue
+		}
+		target, err := resolveTypeAlias(typeName, gen.old.typeDefs)
+		if err != nil {
+			return errors.WithStack(err)
+		}
+		gen.new.typeDefs[typeName] = gen.new.typeDefs[target]
+	}
 	return nil
+}
+
+// resolveTypeAlias returns the name of the (non-alias) type definition denoted
+// by the given type alias. An error is returned for (potentially recursive)
+// self-referential type aliases.
+func resolveTypeAlias(typeName string, index map[string]*ast.TypeDef) (string, error) {
+	// track is used to identify self-referential named types.
+	track := map[string]bool{typeName: true}
+	name := typeName
+	for {
+		def, ok := index[name]
+		if !ok {
+			return "", errors.Errorf("unable to locate type definition of named type %q", enc.TypeName(name))
+		}
+		alias, ok := def.Typ().(*ast.NamedType)
+		if !ok {
+			return name, nil
+		}
+		name = getTypeName(localIdent(alias.Name()))
+		if track[name] {
+			names := make([]string, 0, len(track))
+			for name := range track {
+				names = append(names, enc.TypeName(name))
+			}
+			sort.Strings(names)
+			return "", errors.Errorf("invalid named type; self-referential with type name(s) %s", strings.Join(names, ", "))
+		}
+		track[name] = true
+	}
 }
 
 // newType returns a new IR type (without body) based on the given AST type.
